@@ -64,9 +64,6 @@ class C14(Prop):
     thorough_budget_s = 1500
     exhaustive = {'quick': False, 'thorough': True}
 
-    def deductive(self, tier):
-        return []
-
     # ------------------------------------------------------------------------------------ cases
     def cases(self, tier, seed):
         import numpy as np
